@@ -12,6 +12,7 @@ fired the call must return the value of a fresh model (never a stale value,
 never a spurious failure)."""
 
 import itertools
+import re
 
 import networkx as nx
 from hypothesis import strategies as st
@@ -58,7 +59,11 @@ VALUES = [0, 1, 2, 3, -1, 2.5, 10, 42, 'a', True, None, 7]
 
 # names pycel does not implement; most of them exist as python builtins
 UNKNOWN_NAMES = ['NOSUCHFUNCTION', 'TYPE', 'HEX', 'FILTER', 'MAP', 'FORMAT',
-                 'LIST', 'ZIP', 'ID', 'SORTED']
+                 'LIST', 'ZIP', 'ID', 'SORTED',
+                 # constants of python's math module, helpers that pycel's
+                 # library modules import for their own use
+                 'E', 'TAU', 'INF', 'FLATTEN', 'LIST_LIKE', 'IS_NUMBER',
+                 'COERCE_TO_NUMBER']
 
 
 def wrap(formula, kind, site=0):
@@ -219,8 +224,9 @@ def check_case(rec, spec, site, kind, iterative, steps):
             if event == 'eval' and (
                     excel_formula.cell is not None and
                     excel_formula.cell.address.address in site_cells or
-                    UNKNOWN_NAMES[site % len(UNKNOWN_NAMES)].lower() + '('
-                    in str(excel_formula.python_code).lower()):
+                    re.search(r'(?<![a-z0-9_.])' + re.escape(
+                        UNKNOWN_NAMES[site % len(UNKNOWN_NAMES)].lower()) +
+                        r'\(', str(excel_formula.python_code).lower())):
                 site_evals[0] += 1
 
         def observe(addr):
